@@ -589,6 +589,12 @@ pub fn cycles(seed: u64, count: usize) -> Report {
         let keep_len = if rewrite_persistent { c.entry("/keep").unwrap().len() } else { 0 };
         let big_len = *rng.pick(&[4096usize, 5000, 9000]); // fixed per case: every repetition is the same cycle
         desc.push_str(&format!("] cycle{:?} remove-order{:?} storage={} overwrite={} rewrite_persistent={}", sizes, order, use_storage, overwrite, rewrite_persistent));
+        // one case in four closes the file after every repetition and opens the bytes again
+        // (the in-memory tables are rebuilt from the file: trimmed tables, rebuilt free lists)
+        let reopen_each = rng.chance(1, 4);
+        if reopen_each {
+            desc.push_str(" reopen-each-repetition");
+        }
         let mut lens = Vec::new();
         let mut roots: Vec<u64> = Vec::new(); // size of the mini stream after each repetition
         for rep in 0..80 {
@@ -638,6 +644,10 @@ pub fn cycles(seed: u64, count: usize) -> Report {
             }
             lens.push(buf.len());
             roots.push(c.root_entry().len());
+            if reopen_each {
+                drop(c);
+                c = cfb::OpenOptions::new().max_buffer_size(4096).open_with(buf.clone()).unwrap();
+            }
         }
         if lens.len() > 5 {
             rep.note("cases_with_extra_repetitions", 1);
